@@ -249,6 +249,9 @@ func Progs(rc *vk.Rec) {
 		if f == "O-probe" {
 			rounds = 5 // seeded operand ranges and types: several per operator
 		}
+		if f == "K-loop-carry" {
+			rounds = 6 // seeded inputs: whether a stale local shows depends on the data
+		}
 		for k := 0; k < rounds*fams[f]; k++ {
 			extras = append(extras, extra{o: wprog.GenOptions{Family: f, Variant: k % fams[f], MaxScens: 1, MaxCalls: 1 << 20}, alwaysC: false})
 		}
